@@ -3,7 +3,7 @@
    the definitions of BrushDefs.tla that Brush.tla model-checks.
 
    A case is one call:
-      dm     [X, Y]                 grid (sides 1..16)
+      dm     [X, Y]                 grid (sides 1..48)
       brush  [[dx, dy], ...]        offsets of the True entries of the brush array the transform was
                                     given (circular_brush(d) of the implementation), relative to its centre
       bg     0 | 1                  index of the background (void) material
@@ -23,7 +23,7 @@ Cases == JsonDeserialize(IOEnv.TRACE_FILE)
 VARIABLES ci
 
 WellFormed(c) ==
-    /\ c.bg \in {0, 1} /\ Len(c.dm) = 2 /\ c.dm[1] \in 1..16 /\ c.dm[2] \in 1..16
+    /\ c.bg \in {0, 1} /\ Len(c.dm) = 2 /\ c.dm[1] \in 1..48 /\ c.dm[2] \in 1..48
     /\ Len(c.arr) = c.dm[1] * c.dm[2] /\ Len(c.out) = c.dm[1] * c.dm[2]
     /\ Len(c.brush) >= 1 /\ \A i \in 1..Len(c.brush) : c.brush[i][1] \in -4..4 /\ c.brush[i][2] \in -4..4
 
